@@ -244,12 +244,15 @@ def U_D_games():
         "1b": [(0.3, "W"), (0.7, "W")],
     }
     names = sorted(cand)
+    sub3 = ["0.3a", "0.3b", "0.3c", "0.3d", "0.6a", "0.6b", "0.6c", "0.5a", "0.5c", "0a", "1b"]
+    sub4 = ["0.3a", "0.3c", "0.3e", "0.6b", "0.6d", "0.7b", "0.7c"]
     games = []
     for k in (2, 3, 4):
-        for combo in itertools.product(names, repeat=k):
-            if k == 4 and len(set(c[:3] for c in combo)) > 2:
-                continue                       # keep the 4-way product tractable: at most two distinct values
-            if k == 3 and len(set(combo)) < 2:
+        pool = {2: names, 3: sub3, 4: sub4}[k]
+        for combo in itertools.product(pool, repeat=k):
+            if k >= 3 and len(set(c[:3] for c in combo)) > 2:
+                continue                       # keep the product tractable: at most two distinct values compete
+            if k >= 3 and len(set(combo)) < 2:
                 continue
             for chooser in (P1, P2):
                 for crew in ((0,) * k, tuple(range(k))):
